@@ -214,3 +214,107 @@ Proof.
   - apply Z.ltb_lt. lia.
   - apply Z.ltb_ge. apply Z.ltb_ge in E. lia.
 Qed.
+
+(* ------------------------------------------------------------------ *)
+(* the creation rule = the table of address classes, for ALL addresses *)
+Ltac decide_cmp :=
+  repeat match goal with
+  | |- context [(?x <=? ?y)] =>
+      first [ replace (x <=? y) with true by (symmetry; apply N.leb_le; lia)
+            | replace (x <=? y) with false by (symmetry; apply N.leb_gt; lia) ]
+  | |- context [(?x <? ?y)] =>
+      first [ replace (x <? y) with true by (symmetry; apply N.ltb_lt; lia)
+            | replace (x <? y) with false by (symmetry; apply N.ltb_ge; lia) ]
+  | |- context [(?x =? ?y)] =>
+      first [ replace (x =? y) with true by (symmetry; apply N.eqb_eq; lia)
+            | replace (x =? y) with false by (symmetry; apply N.eqb_neq; lia) ]
+  end.
+
+Ltac row H := decide_cmp; cbn [andb orb negb option_map verdict_holds]; try (destruct H; reflexivity); try reflexivity.
+
+Lemma rule4m_by_class x r : x < 4294967296 ->
+  option_map (fun v => verdict_holds v r) (lookup_class class4m_table x) =
+  Some (v4_linklocal x || (negb (mapped_base + x =? 0) && negb (v4_loopback x) && negb (v4_multicast x) && negb (v4_linklocal x) &&
+                           negb (true && ((x =? 0) || (x =? 4294967295))) && negb r)).
+Proof.
+  intros X. unfold class4m_table, lookup_class, v4_linklocal, v4_loopback, v4_multicast, in_range, mapped_base.
+  destruct (N.ltb_spec x 1); [row r|].
+  destruct (N.ltb_spec x 2130706432); [row r|].
+  destruct (N.ltb_spec x 2147483648); [row r|].
+  destruct (N.ltb_spec x 2851995648); [row r|].
+  destruct (N.ltb_spec x 2852061184); [row r|].
+  destruct (N.ltb_spec x 3758096384); [row r|].
+  destruct (N.ltb_spec x 4026531840); [row r|].
+  destruct (N.ltb_spec x 4294967295); [row r|row r].
+Qed.
+
+Lemma rule6_by_class a r : a < 2 ^ 128 ->
+  option_map (fun v => verdict_holds v r) (verdict6 a) = Some (v6_linklocal a || (v6_global a && negb r)).
+Proof.
+  intros B. unfold verdict6, v6_global, v6_linklocal, v6_loopback, v6_multicast.
+  destruct (v6_mapped a) eqn:M; cbv iota.
+  - unfold v6_mapped, in_range in M. apply andb_prop in M. destruct M as [M1 M2].
+    apply N.leb_le in M1. apply N.ltb_lt in M2.
+    assert (X : a - mapped_base < 4294967296) by (unfold mapped_base in *; lia).
+    rewrite (rule4m_by_class (a - mapped_base) r X).
+    replace (mapped_base + (a - mapped_base)) with a by lia. reflexivity.
+  - unfold v6_mapped, in_range, mapped_base in M.
+    unfold class6_table, lookup_class, in_range, mapped_base.
+    change (2 ^ 128) with 340282366920938463463374607431768211456 in *.
+    change (65152 * 2 ^ 112) with 338288524927261089654018896841347694592.
+    change (65216 * 2 ^ 112) with 338620831926207318622244848606417780736.
+    change (65280 * 2 ^ 112) with 338953138925153547590470800371487866880.
+    change (281470681743360 + 4294967296) with 281474976710656 in *.
+    cbn [andb].
+    destruct (N.ltb_spec a 1); [row r|].
+    destruct (N.ltb_spec a 2); [row r|].
+    destruct (N.ltb_spec a 281470681743360); [row r|].
+    destruct (N.ltb_spec a 281474976710656).
+    { exfalso. replace (281470681743360 <=? a) with true in M by (symmetry; apply N.leb_le; lia).
+      replace (a <? 281474976710656) with true in M by (symmetry; apply N.ltb_lt; lia). discriminate. }
+    destruct (N.ltb_spec a 338288524927261089654018896841347694592); [row r|].
+    destruct (N.ltb_spec a 338620831926207318622244848606417780736); [row r|].
+    destruct (N.ltb_spec a 338953138925153547590470800371487866880); [row r|row r].
+Qed.
+
+Theorem creation_rule_by_class_proof c f a : f_class f = FIP6 -> f_ip f = IP6 a -> a < 2 ^ 128 ->
+  ref_event c f =
+  if unicast_mac (f_src f) && negb (f_src f =? own_mac c) then
+    match verdict6 a with
+    | Some v => if verdict_holds v (f_src f =? rt_mac c) then Some (f_src f, IP6 a) else None
+    | None => None
+    end
+  else None.
+Proof.
+  intros C I B. unfold ref_event. rewrite C, I.
+  destruct (unicast_mac (f_src f) && negb (f_src f =? own_mac c)); [|reflexivity].
+  pose proof (rule6_by_class a (f_src f =? rt_mac c) B) as R.
+  destruct (verdict6 a) as [v|]; cbn [option_map] in R; [|discriminate].
+  injection R as R. rewrite R. reflexivity.
+Qed.
+
+(* every row of the table is inhabited by the representatives the harness sends (ClassIP6 of tables.go), with the
+   verdict the row states -- checked on the MODEL's predicate [host_event] for a client MAC and for the router MAC *)
+Definition class_examples : list (N * verdict) :=
+  [ (0, Never); (1, Never); (2, NotFromRouter); (3232235525, NotFromRouter);                     (* ::, ::1, ::2, ::192.168.0.5 *)
+    (281470681743360, Never); (281473913978881, NotFromRouter); (281473533739265, Always);          (* ::ffff:0.0.0.0, ::ffff:192.168.0.1, ::ffff:169.254.1.1 *)
+    (281472812449793, Never); (281474439839745, Never); (281474976710655, Never); (281470816487432, NotFromRouter); (* mapped 127.0.0.1, 224.0.0.1, 255.255.255.255, 8.8.8.8 *)
+    (524413980667603649783483181446989832, NotFromRouter);                                           (* 64:ff9b::808:808 NAT64 *)
+    (42535295865117307932921825928971026433, NotFromRouter); (42540488161975842760550356425300246529, NotFromRouter);   (* 2000::1, 2001::1 Teredo *)
+    (42540766411282592856903984951653826565, NotFromRouter); (42549587991810790031128615138434744321, NotFromRouter);   (* 2001:db8::5, 2002:c0a8:1::1 6to4 *)
+    (50510663839826803170344668290653093889, NotFromRouter);                                         (* 2600::1 *)
+    (334965454937798799971759379190646833153, NotFromRouter); (336294682933583715844663186250927177729, NotFromRouter); (* fc00::1, fd00::1 unique local *)
+    (338288524927261089654018896841347694597, Always); (338620831926207318622244848606417780735, Always);   (* fe80::5, febf:ffff:...:ffff *)
+    (338620831926207318622244848606417780737, NotFromRouter);                                        (* fec0::1 site-local *)
+    (338958331222012082418099330867817086977, Never); (338963523518870617245727861372719464453, Never);     (* ff01::1, ff02::1:ff00:5 *)
+    (340282366920938463463374607431768211455, Never) ].
+
+Definition ex_client : mac := ex_mac1.
+Definition class_example_ok (c : cfg) (e : N * verdict) : bool :=
+  let mk m := {| f_src := m; f_class := FIP6; f_ip := IP6 (fst e); f_arpmac := 0; f_dhcp4 := false |} in
+  let created m := match host_event c (mk m) with Some _ => true | None => false end in
+  Bool.eqb (created ex_client) (verdict_holds (snd e) false) && Bool.eqb (created (rt_mac c)) (verdict_holds (snd e) true) &&
+  match verdict6 (fst e) with Some v => match v, snd e with Never, Never | Always, Always | NotFromRouter, NotFromRouter => true | _, _ => false end | None => false end.
+
+Lemma class_examples_ok : forallb (class_example_ok std_cfg) class_examples = true.
+Proof. vm_compute. reflexivity. Qed.
